@@ -94,3 +94,11 @@ check('C15', 'symbolic execution of the MIR of the SemVer/PEP440 part accessors,
 for e in ENGINES:
     if e['name'] in ('msym', 'native-driver'):
         e['serves_properties'] = sorted(set(e['serves_properties']) | {'C15'})
+
+check('C12', 'symbolic execution of the MIR of ZervSchema::new / validate / set_* / Zerv::new on schemas whose components are solver variables ranging over all 17 plain variables; z3 compares acceptance with the placement rules',
+      'PARTIAL. Decided: the refusal / placement half - for every schema with up to 3+3+1 (thorough 4+4+2) components where each plain component is any of the 17 variables (one solver variable per position), plus literal and timestamp mixes with symbolic pattern text, the real constructors and validating setters return Ok exactly when the statement\'s placement rules hold (primaries only in core, unique and ordered; secondaries only in extra-core, unique; neither in build; known timestamp pattern; not all empty). NOT decided: byte-identical RON round trips, malformed RON and pipe equivalence - serde/ron library code has no MIR in the crate and is out of CBMC\'s reach.',
+      'trusted: python models of Vec/HashSet/IndexMap/iterators; the z3 formula of the rules; z3. Conversions emitting schemas run the same validators under C07.',
+      'DESIGN.md §7 C12')
+for e in ENGINES:
+    if e['name'] in ('msym', 'native-driver'):
+        e['serves_properties'] = sorted(set(e['serves_properties']) | {'C12'})
